@@ -31,14 +31,19 @@ const TABLES: [Tbl; 3] = [GLYPH, FONT, CHR];
 struct Rel { alias: String, cols: Vec<(String, char)> }
 
 pub struct Gen7 { pub rng: SplitMix64, fresh: u32, /// constructs whose rendering is a recorded finding (named WINDOW clause)
-    pub named_window: bool }
+    pub named_window: bool,
+    /// only features common to MySQL, Postgres and SQLite (C09)
+    pub portable: bool,
+    /// an ORDER BY item combines FIELD order with a NULLS option (the backends order such rows differently: finding C09-field-order-with-nulls)
+    pub field_nulls: bool }
 
 fn col(t: &str, c: &str) -> Ex { Ex::Col(ColRef::TCol(t.into(), c.into())) }
 fn bin(l: Ex, o: u32, r: Ex) -> Ex { Ex::Bin(Box::new(l), Op::Std(o), Box::new(r)) }
 fn ival(i: i64) -> Ex { Ex::Val(val(Value::BigInt(Some(i)))) }
 
 impl Gen7 {
-    pub fn new(rng: SplitMix64) -> Self { Gen7 { rng, fresh: 0, named_window: false } }
+    pub fn new(rng: SplitMix64) -> Self { Gen7 { rng, fresh: 0, named_window: false, portable: false, field_nulls: false } }
+    pub fn portable(rng: SplitMix64) -> Self { Gen7 { rng, fresh: 0, named_window: false, portable: true, field_nulls: false } }
     fn alias(&mut self, p: &str) -> String { self.fresh += 1; format!("{p}{}", self.fresh) }
     fn value(&mut self, ty: char) -> Val {
         let r = &mut self.rng;
@@ -48,7 +53,7 @@ impl Gen7 {
             'r' => Value::Double(Some(*r.pick(&[0.0, 0.5, 1.5, 2.0, -1.25, 3.0, 10.25]))),
             'b' => Value::Bool(Some(r.chance(1, 2))),
             'y' => Value::Bytes(Some(Box::new((0..r.below(4)).map(|_| r.next() as u8).collect()))),
-            _ => Value::String(Some(Box::new(r.pick(&["a", "b", "x", "y", "it's", "img-a", "img%", "e_e", "", "serif", "regular", "B", "q?m", "$1", "back\\slash"]).to_string()))),
+            _ => Value::String(Some(Box::new(r.pick(&["a", "b", "x", "y", "it's", "img-a", "img%", "e_e", "", "serif", "regular", "B", "q?m", "$1", "back\\slash", "two\nlines", "tab\there", "cr\rlf\n"]).to_string()))),
         })
     }
     fn pick_col(&mut self, rels: &[Rel], want: Option<char>) -> (Ex, char) {
@@ -67,17 +72,22 @@ impl Gen7 {
         let d = depth - 1;
         match (ty, self.rng.below(12)) {
             ('i' | 'r', 0..=3) => { let o = *self.rng.pick(&[16u32, 17, 18, 16, 17, 20, 19]); let (l, r) = (self.scalar(rels, ty, d, agg), self.scalar(rels, 'i', d, agg)); bin(l, o, r) }
-            ('i', 4) => { let o = *self.rng.pick(&[21u32, 22, 23, 24]); let (l, r) = (self.scalar(rels, 'i', d, agg), self.scalar(rels, 'i', 0, false)); bin(l, o, r) }
+            ('i', 4) => { let o = *self.rng.pick(&[21u32, 22, 23, 24]); let (l, r) = (self.scalar(rels, 'i', d, agg), self.scalar(rels, 'i', d, false)); bin(l, o, r) }
+            // bit test `flags & (1 << n)` and friends: a shift or bit operator nested in another
+            ('i', 5) if self.rng.chance(1, 2) => { let (a, b, c) = (self.scalar(rels, 'i', 0, false), ival(1 + self.rng.below(3) as i64), ival(self.rng.below(4) as i64));
+                let (o1, o2) = (*self.rng.pick(&[21u32, 22, 23, 24]), *self.rng.pick(&[21u32, 22, 23, 24, 16, 18]));
+                if self.rng.chance(1, 2) { bin(a, o1, bin(b, o2, c)) } else { bin(bin(a, o2, b), o1, c) } }
             ('i', 5) => Ex::Func(Fun::Std(10), false, vec![self.scalar(rels, 't', d, agg)]),
             ('i' | 'r', 6) => Ex::Func(Fun::Std(4), false, vec![self.scalar(rels, ty, d, agg)]),
             (_, 7) => { let n = 2 + self.rng.below(2) as usize; Ex::Func(Fun::Std(*self.rng.pick(&[5u32, 8, 9])), false, (0..n).map(|_| self.scalar(rels, ty, d, agg)).collect()) }
             (_, 8) => Ex::Func(Fun::Std(7), false, vec![self.scalar(rels, ty, d, agg), self.scalar(rels, ty, d, agg)]),
             ('t', 0..=1) => Ex::Func(Fun::Std(*self.rng.pick(&[12u32, 13])), false, vec![self.scalar(rels, 't', d, agg)]),
-            ('t', 2) => bin(self.scalar(rels, 't', d, agg), 27, self.scalar(rels, 't', d, agg)), // Custom("||") : see `fix_custom`
+            ('t', 2) if !self.portable => bin(self.scalar(rels, 't', d, agg), 27, self.scalar(rels, 't', d, agg)), // Custom("||") : see `fix_custom`
             (_, 9) => { let n = 1 + self.rng.below(2) as usize; let ws = (0..n).map(|_| (self.cond(rels, d, agg), self.scalar(rels, ty, d, agg))).collect(); let el = if self.rng.chance(2, 3) { Some(Box::new(self.scalar(rels, ty, d, agg))) } else { None }; Ex::Case(ws, el) }
             (_, 10) if agg => { let f = *self.rng.pick(&[0u32, 1, 2, 6, 3]); let a = self.scalar(rels, if f == 6 { ty } else { 'i' }, d, false); Ex::Func(Fun::Std(f), f == 6 && self.rng.chance(1, 3), vec![a]) }
             (_, 11) if d > 0 => Ex::Subq(None, Box::new(Query::Sel(self.scalar_subquery(rels, ty, d)))),
             ('r', _) => Ex::Func(Fun::Std(17), false, vec![self.scalar(rels, 'r', d, agg)]),
+            _ if self.portable => bin(self.scalar(rels, ty, d, agg), 10, self.scalar(rels, ty, d, agg)), // CAST type names are not portable
             _ => { let t = if ty == 't' { "text" } else if ty == 'r' { "real" } else { "integer" }; let xt = *self.rng.pick(&['i', 't', 'r']); let x = self.scalar(rels, xt, d, agg); Ex::Func(Fun::Std(11), false, vec![Ex::Bin(Box::new(x), Op::Std(25), Box::new(Ex::Cust(t.into())))]) }
         }
     }
@@ -111,7 +121,7 @@ impl Gen7 {
             6 => { let pat = Ex::Val(val(Value::String(Some(Box::new(self.rng.pick(&["a%", "%b", "img-_", "img!%%", "e!_e", "%"]).to_string())))));
                    let rhs = if self.rng.chance(1, 2) { bin(pat, 26, Ex::Const(val(Value::Char(Some('!'))))) } else { pat };
                    bin(self.scalar(rels, 't', d, agg), *self.rng.pick(&[2u32, 3]), rhs) }
-            7 => bin(self.scalar(rels, 't', d, agg), 60, Ex::Val(val(Value::String(Some(Box::new(self.rng.pick(&["a*", "*b", "img-?", "*"]).to_string())))))),
+            7 if !self.portable => bin(self.scalar(rels, 't', d, agg), 60, Ex::Val(val(Value::String(Some(Box::new(self.rng.pick(&["a*", "*b", "img-?", "*"]).to_string())))))),
             8 | 9 => bin(self.pred(rels, d, agg), *self.rng.pick(&[0u32, 1]), self.pred(rels, d, agg)),
             10 => Ex::Not(Box::new(self.pred(rels, d, agg))),
             11 if depth > 1 => { let t = self.rng.pick(&TABLES).clone(); let a = self.alias("e");
@@ -143,7 +153,9 @@ impl Gen7 {
         let mut out = Vec::new();
         for (e, ty) in keys {
             let kind = if self.rng.chance(1, 6) { let n = 1 + self.rng.below(3) as usize; OrderKind::Field((0..n).map(|_| self.value(ty)).collect()) } else if self.rng.chance(1, 2) { OrderKind::Desc } else { OrderKind::Asc };
-            out.push(OrderItem { e, kind, nulls_first: match self.rng.below(4) { 0 => Some(true), 1 => Some(false), _ => None } });
+            let nulls_first = match self.rng.below(4) { 0 => Some(true), 1 => Some(false), _ => None };
+            if matches!(kind, OrderKind::Field(_)) && nulls_first.is_some() { self.field_nulls = true; }
+            out.push(OrderItem { e, kind, nulls_first });
         }
         if let Some(e) = total { out.push(OrderItem { e, kind: OrderKind::Asc, nulls_first: None }); }
         out
@@ -160,7 +172,7 @@ impl Gen7 {
     }
     /// a FROM item and the relation it brings into scope
     fn from_item(&mut self, depth: u32) -> (TRef, Rel) {
-        match self.rng.below(if depth == 0 { 6 } else { 9 }) {
+        match self.rng.below(if depth == 0 { 6 } else if self.portable { 8 } else { 9 }) {
             6 | 7 => { // sub-select with aliased output columns
                 let (s, cols) = self.select_core(depth - 1, false, false);
                 let a = self.alias("q");
@@ -187,7 +199,7 @@ impl Gen7 {
             let nj = 1 + self.rng.below(2);
             for _ in 0..nj {
                 let (t, r) = self.from_item(depth.min(1));
-                let ty = *self.rng.pick(&[0u32, 2, 3, 3, 1, 4, 5]);
+                let ty = if self.portable { *self.rng.pick(&[0u32, 2, 3, 3, 4]) } else { *self.rng.pick(&[0u32, 2, 3, 3, 1, 4, 5]) };
                 let mut scope = rels.clone(); scope.push(r.clone());
                 let on = if ty == 1 { Cond { neg: false, any: false, items: vec![] } } else {
                     let (a, k) = self.pick_col(&rels, Some('i')); let b = self.pick_col(&[r.clone()], Some(k)).0;
@@ -228,7 +240,7 @@ impl Gen7 {
             for _ in 0..n {
                 let ty = *self.rng.pick(&['i', 'i', 't', 'r']);
                 let e = self.scalar(&rels, ty, depth.min(2), false);
-                let win = if allow_window && self.rng.chance(1, 6) { if self.rng.chance(1, 8) { self.named_window = true; WinSel::Name("w".into()) } else { WinSel::Query(self.window(&rels)) } } else { WinSel::None };
+                let win = if allow_window && self.rng.chance(1, 6) { if !self.portable && self.rng.chance(1, 8) { self.named_window = true; WinSel::Name("w".into()) } else { WinSel::Query(self.window(&rels)) } } else { WinSel::None };
                 let e = if matches!(win, WinSel::None) { e } else { Ex::Func(Fun::Std(*self.rng.pick(&[2u32, 0, 1, 6])), false, vec![self.pick_col(&rels, Some('i')).0]) };
                 let a = self.alias("o");
                 s.selects.push(SelItem { e, win, alias: Some(a.clone()) }); out.push((a, ty));
@@ -256,7 +268,9 @@ impl Gen7 {
             let k = 1 + self.rng.below(out.len() as u64) as usize;
             for (a, t) in out.iter().take(k) { keys.push((Ex::Col(ColRef::Col(a.clone())), *t)); }
             let mut ord = self.order(keys, None);
-            if !s.unions.is_empty() { for o in ord.iter_mut() { if matches!(o.kind, OrderKind::Field(_)) { o.kind = OrderKind::Asc; } } }
+            if !s.unions.is_empty() { for o in ord.iter_mut() { if matches!(o.kind, OrderKind::Field(_)) { o.kind = OrderKind::Asc; }
+                // MySQL's NULLS emulation is an expression key, which a compound SELECT's ORDER BY cannot carry on SQLite
+                if self.portable { o.nulls_first = None; } } }
             for (a, _) in out.iter().skip(k) { ord.push(OrderItem { e: Ex::Col(ColRef::Col(a.clone())), kind: OrderKind::Asc, nulls_first: None }); }
             s.orders = ord;
             if self.rng.chance(1, 2) { s.limit = Some(self.rng.below(6)); if self.rng.chance(1, 3) { s.offset = Some(self.rng.below(4)); } }
@@ -279,7 +293,7 @@ impl Gen7 {
             let (s, out) = self.select_core(depth, false, false);
             let cols: Vec<String> = if self.rng.chance(1, 2) { out.iter().map(|_| self.alias("k")).collect() } else { vec![] };
             let rel_cols = if cols.is_empty() { out.clone() } else { cols.iter().cloned().zip(out.iter().map(|o| o.1)).collect() };
-            (WithC { recursive: false, search: None, cycle: None, ctes: vec![Cte { name: name.clone(), cols, mat: match self.rng.below(4) { 0 => Some(true), 1 => Some(false), _ => None }, q: Query::Sel(s) }] }, Rel { alias: name, cols: rel_cols })
+            (WithC { recursive: false, search: None, cycle: None, ctes: vec![Cte { name: name.clone(), cols, mat: if self.portable { None } else { match self.rng.below(4) { 0 => Some(true), 1 => Some(false), _ => None } }, q: Query::Sel(s) }] }, Rel { alias: name, cols: rel_cols })
         }
     }
     fn returning(&mut self, t: &Tbl) -> Ret {
